@@ -243,8 +243,10 @@ def grid_logm(conv, apertures_au, theta_arcsec, d_kpc):
     return out
 
 
-def check_distance_grid(ctx, distances_kpc, dmin, dmax, step, wit, keyp='grid'):
-    """(a) of C02: both ends, log-uniform, spacing <= step, fewest points"""
+def check_distance_grid(ctx, distances_kpc, dmin, dmax, step, wit, keyp='grid', exact=False):
+    """(a) of C02: both ends, log-uniform, spacing <= step, fewest points.
+    exact: the ends are powers of ten and the step a dyadic fraction, so L/step is an exact integer in any floating-point
+    formulation: the don't-care band for 'an integer to rounding' does not apply and the count must be L/step + 1"""
     d = np.asarray(distances_kpc, float)
     n = len(d)
     ok = True
@@ -277,7 +279,10 @@ def check_distance_grid(ctx, distances_kpc, dmin, dmax, step, wit, keyp='grid'):
         ok = False
     # fewest points: with one point less the spacing would exceed the step.
     # don't-care: L/step an integer to rounding -> n or n+1 both accepted
-    if n > 2 and L / (n - 2) <= step * (1 - 1e-9):
+    if exact and n != int(round(L / step)) + 1:
+        bad('not-minimal', 'distance grid does not have the fewest points whose spacing does not exceed the step (range = exact multiple of the step)')
+        ok = False
+    elif n > 2 and L / (n - 2) <= step * (1 - 1e-9):
         q = L / step
         if not (abs(q - round(q)) < 1e-9 * max(1.0, q) and n - 2 == round(q)):
             bad('not-minimal', 'distance grid has more points than needed for the step')
